@@ -55,12 +55,19 @@ class Injector:
         try:
             for obj, name in self.targets:
                 orig = getattr(obj, name)
-                saved.append((obj, name, orig))
+                own = name in getattr(obj, '__dict__', {})        # (a method looked up on the class is shadowed on the instance, and un-shadowed afterwards)
+                saved.append((obj, name, obj.__dict__[name] if own else orig, own or isinstance(obj, type) or not hasattr(obj, '__dict__')))
                 setattr(obj, name, self._wrap(orig, name))
             yield self
         finally:
-            for obj, name, orig in reversed(saved):
-                setattr(obj, name, orig)
+            for obj, name, orig, put_back in reversed(saved):
+                if put_back:
+                    setattr(obj, name, orig)
+                else:
+                    try:
+                        delattr(obj, name)
+                    except AttributeError:
+                        setattr(obj, name, orig)
 
     def explore(self, call, max_points=None):
         """yields (k, site, ('ok', value) | ('raised', exception)) for every fault point k of call(); k = None is the fault-free run"""
